@@ -245,10 +245,7 @@ def rule_propagation_chain(ctx):
 def rule_recycle_compare(ctx):
     """R-C01-9."""
     cr = ctx.prog.func("step.Step.can_recycle")
-    src = _norm(ast.unparse(cr.node))
-    for p, getter in (("inp_paths", "self.inp_paths(dynamic=False)"), ("env_deps", "self.env_deps(dynamic=False)"), ("out_paths", "self.out_paths(dynamic=False)"), ("vol_paths", "self.vol_paths(dynamic=False)")):
-        ok = getter in src and f"sorted({p})" in src
-        ctx.check(ok, cr.fq, f"{p} compared with the stored initial counterpart", f"can_recycle no longer compares {p}: a redefinition with different {p} is recycled with its old state and hash", "compared")
+    shared.check_can_recycle_compares_roles(ctx, "can_recycle no longer compares {p} on its own: a redefinition with different {p} is recycled with its old state and hash")
     rets = [n for n in ast.walk(cr.node) if isinstance(n, ast.Return)]
     falses = [r for r in rets if isinstance(r.value, ast.Constant) and r.value.value is False]
     ctx.check(len(falses) == 3 and len(rets) == 4, cr.fq, "three early `return False` and a final comparison", f"{len(falses)} early returns / {len(rets)} returns", "4 comparisons")
